@@ -24,7 +24,7 @@ ASSUMPTIONS = ["message IDs are assigned at submission, which gives an independe
                "an exchange ends when an ACK/RST with its MID from its remote is delivered, when its retransmissions are "
                "exhausted, or when a transport error for the remote is delivered"]
 EXPECTED_PROBES = ["server_originated_con", "backlog_depth_1", "backlog_depth_3", "release_after_ack", "release_after_rst", "flush_by_giveup",
-                   "flush_by_icmp", "non_while_blocked", "other_remote_while_blocked", "unsendable_message", "response_before_exchange_end", "request_cancelled_by_application", "garbage_collected_mid_run"]
+                   "flush_by_icmp", "non_while_blocked", "other_remote_while_blocked", "unsendable_message", "response_before_exchange_end", "request_cancelled_by_application", "garbage_collected_mid_run", "application_callback_raised"]
 
 REACTIONS = ["ack", "ack_sep", "piggy", "rst", "silent"]
 
@@ -43,6 +43,11 @@ def gen(r, tier):
                                          (1, "sep_rst"), (1, "sep_ack"), (1, "sep_only")]),
                     "delay": r.choice([0.005, 0.005, 0.05, 0.3, 1.0, 2.5]),
                     "mr": r.choice([0, 1, 2, 4]), "ato": r.choice([0.2, 0.5, 2.0])})
+        if ops[-1]["react"] == "piggy" and ops[-1]["con"] and r.chance(0.5):
+            # the application's own code fails when it is handed the outcome (it asked to observe, the answer says the
+            # resource is not observable, the error callback it registered raises): the application's problem -- the
+            # exchange is over all the same and the messages waiting behind it move up
+            ops[-1]["raiser"] = True
         if r.chance(0.06):
             # a message that cannot be put on the wire (the transport's send() raises): when its turn comes it fails,
             # and the queue behind it must move on exactly as if it had never been there
@@ -237,7 +242,15 @@ def execute(sim, scn):
         if op.get("bad"):
             msg.payload = "text, not bytes: cannot be serialised"
             sim.probe("unsendable_message")
+        if op.get("raiser"):
+            msg.opt.observe = 0
         rec = tracker.start(tag, client, msg, handle_blockwise=False)
+        if op.get("raiser"):
+            def raiser(_):
+                sim.probe("application_callback_raised")
+                raise RuntimeError("application callback fails")
+            rec["req"].observation.register_errback(raiser)
+            rec["req"].observation.register_callback(raiser)
         submitted.append((loop.now, tag, op["peer"], op["con"]))
         if scn.get("gc_at"):
             # the application keeps nothing of a request once it has its outcome: request, message and response objects
